@@ -1455,6 +1455,13 @@ class _IndexGOMixin:
         Args:
             values: can be a generator.
         '''
+        # realize and validate all values before appending any, so that a rejected value leaves the index unchanged
+        values = tuple(values)
+        seen = set()
+        for value in values:
+            if self.__contains__(value) or value in seen: #type: ignore
+                raise KeyError(f'duplicate key append attempted: {value}')
+            seen.add(value)
         for value in values:
             self.append(value)
 
